@@ -34,7 +34,11 @@ var (
 // Non-locking version used in field creation.
 func getTypeStruct(rt reflect.Type, embedded, omitEmpty bool) (st *sinfo) {
 	x := (*[2]uintptr)(unsafe.Pointer(&rt))[1]
-	if st = structMap[x]; st != nil {
+	sm := structMap
+	if omitEmpty {
+		sm = structEmptyMap
+	}
+	if st = sm[x]; st != nil {
 		return
 	}
 	return buildStruct(rt, x, embedded, omitEmpty)
